@@ -232,12 +232,14 @@ func init() {
 		},
 	})
 	register(&PropConfig{
-		ID:       "C03",
-		Probes:   []string{"runtime.replace#probe", "templ.SafeScriptInline#probe"},
-		Replay:   replayC03,
-		Packages: []string{"./runtime", "."},
-		Corpus:   true,
-		Extra:    func(r *Run) { r.VerifyGenerated(r.corpus, "C03") },
+		ID:     "C03",
+		Probes: []string{"runtime.replace#probe", "templ.SafeScriptInline#probe"},
+		// the parser's quote-state tracking (scriptElementParser) is outside the executor's subset: bounded stand-in
+		QuickProbes: []string{"parser.scriptElementParser#probe"},
+		Replay:      replayC03,
+		Packages:    []string{"./runtime", "."},
+		Corpus:      true,
+		Extra:       func(r *Run) { r.VerifyGenerated(r.corpus, "C03") },
 		Assume: []string{
 			"SAFE_IN_SQ / SAFE_IN_DQ / SAFE_IN_BACKTICK / NO_SCRIPT_END (contracts/lang/js.lang) formalise the ECMAScript string / template lexical rules and the HTML script-data tokenizer; written from the standards",
 			"utf8.DecodeRuneInString: 1<=w<=4, w<=len; r<0x80 iff first byte <0x80 and then w==1 and r is that byte; otherwise all consumed bytes are >=0x80",
@@ -259,9 +261,12 @@ func init() {
 		},
 	})
 	register(&PropConfig{
-		ID:       "C17",
-		Probes:   []string{"proxy.Document.Apply#probe"},
-		Packages: []string{"./cmd/templ/lspcmd/proxy"},
+		ID:     "C17",
+		Probes: []string{"proxy.Document.Apply#probe"},
+		// DocumentContents.Apply (the loop over the changes of one notification) is outside the executor's subset
+		// (map of pointers, opaque protocol structs): its bounded oracle runs in the quick tier too
+		QuickProbes: []string{"proxy.Document.Apply#probe"},
+		Packages:    []string{"./cmd/templ/lspcmd/proxy"},
 		Assume: []string{
 			"LSP Character offsets are byte offsets into the line (the representation templ uses); UTF-16 code-unit positions are outside the claim",
 			"Join(Lines, \"\\n\") / Split are inverse on newline-free parts (code-independent lemma relating the line-splice spec to the byte splice)",
